@@ -34,6 +34,9 @@ func (m *MethStr) UnmarshalJSON(b []byte) error {
 	return nil
 }
 
+// PlainStr has no methods: only a caller-supplied function can change how it is written.
+type PlainStr string
+
 type MethSlice []int
 
 func (m MethSlice) MarshalJSON() ([]byte, error) { return []byte(fmt.Sprintf(`{"n":%d}`, len(m))), nil }
@@ -47,6 +50,7 @@ type otherT struct{ Z int }
 
 func init() {
 	tv.RegisterPool(tv.PoolType{Name: "MethStr", Type: reflect.TypeFor[MethStr](), Under: &tv.Desc{K: "string"}})
+	tv.RegisterPool(tv.PoolType{Name: "PlainStr", Type: reflect.TypeFor[PlainStr](), Under: &tv.Desc{K: "string"}})
 	tv.RegisterPool(tv.PoolType{Name: "MethSlice", Type: reflect.TypeFor[MethSlice](), Under: &tv.Desc{K: "slice", Elem: &tv.Desc{K: "int"}}})
 }
 
